@@ -287,6 +287,7 @@ def _run_free(item, res):
         env, bodies = setup()
         seq.append(bodies[t]())
     bad = 0
+    first = None
     for k in range(item['runs']):
         env, bodies = setup()
         out = [None, None]
@@ -307,6 +308,8 @@ def _run_free(item, res):
         res['impl_calls'] += 2
         if out[0] != seq[0] or out[1] != seq[1]:
             bad += 1
+            if first is None:          # kept for diagnosis only
+                first = ';'.join('t%d=%s' % (i, ((out[i] or {}).get('error') or 'other_digest')[:120]) for i in (0, 1) if out[i] != seq[i])
     res.regime('sched:free_running')
     res.state('free', item['harness'])
     res['ophashes'].append(hidden._digest(repr(('free', item['harness'], bad)).encode()))
@@ -315,7 +318,7 @@ def _run_free(item, res):
     # mismatches are counted in the evidence and printed as a note, never as a violation
     res['extra']['free_running_mismatches'] = bad
     if bad:
-        res['notes'].append('free_running_mismatch:%s:%d_of_%d' % (item['harness'], bad, item['runs']))
+        res['notes'].append('free_running_mismatch:%s:%d_of_%d:%s' % (item['harness'], bad, item['runs'], first))
     _snap().reset()
 
 
